@@ -17,7 +17,7 @@ func (r *Rng) next() uint64 {
 	z = (z ^ (z >> 27)) * 0x94D049BB133111EB
 	return z ^ (z >> 31)
 }
-func (r *Rng) intn(n int) int { return int(r.next() % uint64(n)) }
+func (r *Rng) intn(n int) int      { return int(r.next() % uint64(n)) }
 func (r *Rng) chance(pct int) bool { return r.intn(100) < pct }
 func pick[T any](r *Rng, xs []T) T { return xs[r.intn(len(xs))] }
 
@@ -555,8 +555,113 @@ func (g *Gen) clockProgram(n int) {
 	}
 }
 
+// expiryProgram: small expiries on a few keys of two collections, a scripted wall clock, sweeps at scripted times.
+func (g *Gen) expiryProgram(n int) {
+	g.colls = []string{"c0", "c1"}
+	g.keys = []string{"k0", "k1"}
+	feeds := []string{}
+	if g.r.chance(60) {
+		g.emit(Line{Op: "feed", Pos: []string{"f0", "c0"}, Args: [][2]string{{"bf", "none"}}})
+		feeds = append(feeds, "f0")
+	}
+	expArg := func() uint64 {
+		switch g.r.weighted([]int{30, 45, 25}) {
+		case 0:
+			return 0
+		case 1:
+			return uint64(10 + g.r.intn(200))
+		}
+		return g.now + uint64(10+g.r.intn(300))
+	}
+	observe := func() {
+		for _, cc := range g.colls {
+			for _, kk := range g.keys {
+				g.rb(cc, kk)
+			}
+		}
+		g.emit(Line{Op: "expstate"})
+		for _, id := range feeds {
+			g.emit(Line{Op: "drain", Pos: []string{id}})
+		}
+	}
+	for i := 0; i < n; i++ {
+		g.tick()
+		c, k := pick(g.r, g.colls), pick(g.r, g.keys)
+		var l Line
+		l.Pos = []string{c, k}
+		switch g.r.weighted([]int{25, 10, 10, 20, 10, 5, 10, 10}) {
+		case 0:
+			l.Op = "set"
+			l.add("exp", u(expArg()))
+			if g.r.chance(30) {
+				l.add("pe", "1")
+			}
+			l.add("raw", "0")
+			l.add("v", g.jsonBody())
+		case 1:
+			l.Op = "add"
+			l.add("exp", u(expArg()))
+			l.add("json", "1")
+			l.add("v", g.jsonBody())
+		case 2:
+			l.Op = "wcas"
+			l.add("exp", u(expArg()))
+			l.add("cas", u(g.casArg(c, k)))
+			l.add("opt", "0")
+			l.add("v", g.jsonBody())
+		case 3:
+			l.Op = pick(g.r, []string{"touch", "gat"})
+			l.add("exp", u(expArg()))
+		case 4:
+			l.Op = "delete"
+		case 5:
+			l.Op = "incr"
+			l.add("amt", "1")
+			l.add("def", "1")
+			l.add("exp", u(expArg()))
+		case 6:
+			l.Op = "wwx"
+			l.add("exp", u(expArg()))
+			l.add("cas", u(g.casArg(c, k)))
+			l.add("v", g.jsonBody())
+			l.add("x._sync", g.xattrVal())
+			if g.r.chance(30) {
+				l.add("pe", "1")
+			}
+		case 7:
+			l.Op = "updx"
+			l.add("exp", u(expArg()))
+			l.add("cas", u(g.casArg(c, k)))
+			l.add("x._sync", g.xattrVal())
+		}
+		res := g.emit(l)
+		g.stats["op:"+l.Op]++
+		g.stats["cell:expiry/"+l.Op+"/"+strings.SplitN(strings.TrimPrefix(res, "r="), " ", 2)[0]]++
+		observe()
+		if g.r.chance(25) {
+			g.now += uint64(pick(g.r, []int{5, 20, 60, 150, 400}))
+			g.emit(Line{Op: "now", Args: [][2]string{{"s", u(g.now)}}})
+			g.emit(Line{Op: "fire"})
+			g.stats["op:fire"]++
+			observe()
+		}
+		if g.w.kind == "disk" && g.r.chance(6) {
+			g.emit(Line{Op: "restart", Args: [][2]string{{"hlc", "0"}}})
+			g.stats["op:restart"]++
+			feeds = nil
+			observe()
+		}
+	}
+}
+
 // program generates one program of n operations under the generator's profile.
 func (g *Gen) program(n int) {
+	if g.profile == "expiry" {
+		g.phys = 1 << 20
+		g.now = 1700000000
+		g.expiryProgram(n)
+		return
+	}
 	if g.profile == "clock" {
 		g.phys = 1 << 20
 		g.now = 1700000000
